@@ -1104,6 +1104,10 @@ impl TwoFloat {
             Self::from(0.0)
         } else if self <= -1.0 {
             Self::NAN
+        } else if self.hi <= -0.5 {
+            // 1 + self is exact here, and the f64 estimate below is -inf
+            // when the high word is exactly -1
+            (1.0 + self).ln()
         } else {
             let mut x = Self::from(libm::log1p(self.hi));
             let mut e = x.exp_m1();
